@@ -23,7 +23,7 @@ func init() {
 				"(once) guard/marker rule: the state the skip gate READS must intersect the state the punishment WRITES, otherwise a second evidence entry against the same validator in one block is punished again (found: the gate read only Status and list membership, which the punishment never changes — repaired by also skipping validators already marked to-drop). " +
 				"NOT decided: the 5 % arithmetic and its rounding, that Tendermint's vote info is truthful.",
 			Assumptions: stdAssumptions,
-			Rules:       []string{"C18.jail", "C18.absent", "C18.byz", "C18.once"},
+			Rules:       []string{"C18.jail", "C18.absent", "C18.byz", "C18.once", "C18.window"},
 		},
 		Run: runC18,
 	})
@@ -108,6 +108,7 @@ func constOf(c *core.Ctx, pkg, name string) (int64, bool) {
 }
 
 func runC18(c *core.Ctx) {
+	defer checkAbsentWindowPersisted(c, "C18.window")
 	// ---- jail
 	for _, m := range LiveModels(c, "C18.jail") {
 		if m.H.TypeName != "SetCandidateOnData" {
@@ -350,4 +351,93 @@ func isBlockPlusPeriodPath(v ssa.Value, period, suffix string) (bool, string) {
 		return false, "no period call"
 	}
 	return strings.HasSuffix(core.Path(a), suffix), core.Path(a)
+}
+
+// checkAbsentWindowPersisted — the 24-block window of missed blocks is persisted only when the
+// validator model is marked dirty, and SetPresent/SetAbsent mark it "if the bit changes". For every
+// AbsentTimes.SetIndex(i, v) in the validator model the dirty mark therefore has to be taken
+// exactly when GetIndex(i) differs from v: with a constant v the mark must sit on the edge
+// GetIndex(i) == !v; with a variable v the condition must compare GetIndex(i) with v. A mark on the
+// wrong edge leaves newly recorded misses in memory only — after a restart the validator's window
+// is empty and "more than 12 of the last 24" is counted from zero again.
+func checkAbsentWindowPersisted(c *core.Ctx, rule string) {
+	vt := c.Named(core.PkgState+"/validators", "Validator")
+	if vt == nil {
+		c.Unk(rule, "Validator", token.NoPos, "type not found")
+		return
+	}
+	n := 0
+	ms := c.Prog.MethodSets.MethodSet(types.NewPointer(vt))
+	for i := 0; i < ms.Len(); i++ {
+		fn := c.Prog.FuncValue(ms.At(i).Obj().(*types.Func))
+		if fn == nil || fn.Blocks == nil || fn.Synthetic != "" {
+			continue
+		}
+		for _, s := range core.Sites(fn) {
+			if methodName(s) != "SetIndex" || !strings.HasSuffix(core.Path(s.Recv()), ".AbsentTimes") {
+				continue
+			}
+			n++
+			key := core.ShortFn(fn) + "/SetIndex"
+			idx, val := s.Arg(0), s.Arg(1)
+			// the dirty marks of this method
+			var marks []*ssa.Store
+			for _, b := range fn.Blocks {
+				for _, in := range b.Instrs {
+					if st, ok := in.(*ssa.Store); ok {
+						if fa, ok := st.Addr.(*ssa.FieldAddr); ok && fieldNameOf(fa) == "isDirty" {
+							marks = append(marks, st)
+						}
+					}
+				}
+			}
+			good := false
+			detail := "no dirty mark"
+			for _, m := range marks {
+				gates := core.GatesBefore(m)
+				if len(gates) == 0 {
+					good = true // unconditional mark
+					continue
+				}
+				for _, g := range gates {
+					cond, truth := g.If.Cond, g.PassTrue
+					for {
+						u, ok := cond.(*ssa.UnOp)
+						if !ok || u.Op != token.NOT {
+							break
+						}
+						cond, truth = u.X, !truth
+					}
+					switch x := cond.(type) {
+					case *ssa.Call:
+						if methodNameOfCall(x) == "GetIndex" && len(x.Call.Args) == 2 && core.SameValue(x.Call.Args[1], idx) {
+							if k, ok := core.Unwrap(val).(*ssa.Const); ok && k.Value != nil {
+								newBit := k.Value.String() == "true"
+								if truth == !newBit {
+									good = true
+								} else {
+									detail = fmt.Sprintf("the model is marked dirty when the stored bit is %v, but the bit is being set to %v: the mark is taken exactly when nothing changes", truth, newBit)
+								}
+							} else {
+								detail = "the new bit is a variable but the dirty mark depends on the old bit alone"
+							}
+						}
+					case *ssa.BinOp:
+						if x.Op == token.NEQ || x.Op == token.EQL {
+							a, b := core.Unwrap(x.X), core.Unwrap(x.Y)
+							isGet := func(v ssa.Value) bool {
+								call, ok := v.(*ssa.Call)
+								return ok && methodNameOfCall(call) == "GetIndex" && core.SameValue(call.Call.Args[1], idx)
+							}
+							if (isGet(a) && core.SameValue(b, val) || isGet(b) && core.SameValue(a, val)) && ((x.Op == token.NEQ) == truth) {
+								good = true
+							}
+						}
+					}
+				}
+			}
+			c.Check(good, rule, key, s.Pos(), "the model is marked dirty exactly when the window bit changes", "the missed-blocks window is changed without the dirty mark that persists it ("+detail+"): after a restart the window is reloaded without these blocks")
+		}
+	}
+	c.Floor(rule, n, 1, "AbsentTimes.SetIndex sites in the validator model")
 }
